@@ -29,6 +29,7 @@ def _generate(program, cache, feats, d, out):
         env = dict(os.environ)
         env['CARGO_NET_OFFLINE'] = 'true'
         env['CARGO_TARGET_DIR'] = os.path.join(cache, 'target-sizes-' + ('-'.join(feats) or 'default'))
+        env['CARGO_INCREMENTAL'] = '0'     # with incremental compilation only re-analysed types are printed
         env.pop('RUSTFLAGS', None)
         cmd = ['cargo', '+nightly', 'rustc', '--offline', '-p', 'laythe_core', '--lib']
         if feats:
